@@ -12,9 +12,20 @@ theorem tdOk_of_le {n : Nat} (h : n ≤ maxTd) : tdOk (n : Int) = true := by
   simp only [tdOk, maxTd, Bool.and_eq_true, decide_eq_true_eq] at *
   omega
 
+theorem guards_pinned : Gen.C09Gena.subscribeTimeoutGuarded = true ∧ Gen.C09Gena.renewTimeoutGuarded = true := by decide
+
+/-- the guarded conversion never raises: it keeps the requested timeout or sets a parsed one -/
+theorem parse_total (th : Option Str) : parseTimeoutHdr true th = .keep ∨ ∃ n, parseTimeoutHdr true th = .set n := by
+  unfold parseTimeoutHdr
+  cases parseTimeoutRaw th with
+  | keep => exact Or.inl rfl
+  | set n => exact Or.inr ⟨n, rfl⟩
+  | valueError => exact Or.inl rfl
+  | overflowError => exact Or.inl rfl
+
 theorem inScope_parse (th : Option Str) (req : Int) (h : (grantedTimeout th 0).isSome = true) :
     ∃ g, grantedTimeout th req = some g ∧
-      ((parseTimeoutHdr th = .keep ∧ g = req) ∨ parseTimeoutHdr th = .set g) := by
+      ((parseTimeoutHdr true th = .keep ∧ g = req) ∨ parseTimeoutHdr true th = .set g) := by
   cases th with
   | none => exact ⟨req, rfl, Or.inl ⟨rfl, rfl⟩⟩
   | some v =>
@@ -22,7 +33,7 @@ theorem inScope_parse (th : Option Str) (req : Int) (h : (grantedTimeout th 0).i
     simp only at h ⊢
     by_cases h1 : v = secondInfinite
     · refine ⟨req, by simp [h1], Or.inl ⟨?_, rfl⟩⟩
-      simp [parseTimeoutHdr, h1]
+      simp [parseTimeoutHdr, parseTimeoutRaw, h1]
     · by_cases h2 : isInfixB secondPrefix v = true
       · simp only [h1, if_false, h2, Bool.not_true, Bool.false_eq_true] at h ⊢
         by_cases h3 : (validTimeoutText v && decide (digitsVal (v.drop 7) ≤ maxTd)) = true
@@ -33,10 +44,30 @@ theorem inScope_parse (th : Option Str) (req : Int) (h : (grantedTimeout th 0).i
           simp only [validTimeoutText, Bool.and_eq_true, Bool.not_eq_true', List.isEmpty_eq_false_iff] at hv
           have hp := pyInt_digits (v.drop 7) hv.1.2 hv.2
           have ht := tdOk_of_le hm
-          simp [parseTimeoutHdr, h1, h2, hp, ht]
+          simp [parseTimeoutHdr, parseTimeoutRaw, h1, h2, hp, ht]
         · simp [h3] at h
       · refine ⟨req, by simp [h1, h2], Or.inl ⟨?_, rfl⟩⟩
-        simp [parseTimeoutHdr, h2]
+        simp [parseTimeoutHdr, parseTimeoutRaw, h2]
+
+/-- what the guarded conversion yields, against the judge's reading of the granted timeout: some `g'` is
+    used, and it is the granted timeout wherever the judge states one -/
+theorem parse_spec (th : Option Str) (req : Int) :
+    ∃ g', ((parseTimeoutHdr true th = .keep ∧ g' = req) ∨ parseTimeoutHdr true th = .set g')
+      ∧ ∀ g, grantedTimeout th req = some g → g' = g := by
+  by_cases hs : (grantedTimeout th 0).isSome = true
+  · obtain ⟨g, hg, hp⟩ := inScope_parse th req hs
+    exact ⟨g, hp, fun g2 h2 => by rw [hg] at h2; cases h2; rfl⟩
+  · have hnone : ∀ r, grantedTimeout th r = none := by
+      intro r
+      cases th with
+      | none => simp [grantedTimeout] at hs
+      | some v =>
+        simp only [grantedTimeout] at hs ⊢
+        repeat' split at hs
+        all_goals simp_all
+    rcases parse_total th with hk | ⟨n, hn⟩
+    · exact ⟨req, Or.inl ⟨hk, rfl⟩, fun g h => by rw [hnone] at h; cases h⟩
+    · exact ⟨n, Or.inr hn, fun g h => by rw [hnone] at h; cases h⟩
 
 /-! ### sid_for_service -/
 
@@ -123,8 +154,8 @@ structure CallOk (rt : Routing) (c : Call) (o : Out) : Prop where
   valid : o.exch.all (fun e => validReq e.req) = true
   adjacent : fallbackAdjacent o.exch = true
   target : ∀ r s, targetOk ⟨c, o.exch, o.res, r, s⟩ = true
-  mirror : o.exch.all exchInScope = true → o.exch.foldl foldExch rt = o.rt
-  result : o.exch.all exchInScope = true → ∀ r s, resultOk ⟨c, o.exch, o.res, r, s⟩ = true
+  mirror : o.exch.foldl foldExch rt = o.rt
+  result : ∀ r s, resultOk ⟨c, o.exch, o.res, r, s⟩ = true
 
 variable (cfg : Cfg)
 
@@ -135,11 +166,10 @@ theorem nodup_subscribeFinish (rt : Routing) (svc : Nat) (t : Int) (r : Reaction
   all_goals first | exact hn | exact nodup_keys_set _ _ _ hn
 
 /-- the initial SUBSCRIBE exchange: fold and result -/
-theorem sub_exch_spec (rt : Routing) (svc : Nat) (t : Int) (r : Reaction)
-    (hs : exchInScope ⟨subscribeRequest cfg svc t, r⟩ = true) :
+theorem sub_exch_spec (rt : Routing) (svc : Nat) (t : Int) (r : Reaction) :
     foldExch rt ⟨subscribeRequest cfg svc t, r⟩ = (subscribeFinish rt svc t r).1
     ∧ (match lastGrant [⟨subscribeRequest cfg svc t, r⟩] with
-       | some (sid, th) => ∃ g, grantedTimeout th t = some g ∧ (subscribeFinish rt svc t r).2 = .sub sid g
+       | some (sid, th) => subResOk (subscribeFinish rt svc t r).2 sid (grantedTimeout th t) = true
        | none => (excOf (subscribeFinish rt svc t r).2).isSome = true) := by
   cases r with
   | connErr => simp [foldExch, lastGrant, sub_method, sub_sid, subscribeFinish, excOf]
@@ -150,12 +180,15 @@ theorem sub_exch_spec (rt : Routing) (svc : Nat) (t : Int) (r : Reaction)
       cases sid with
       | none => simp [foldExch, lastGrant, sub_method, sub_sid, subscribeFinish, excOf]
       | some s =>
-        have hsc : (grantedTimeout th 0).isSome = true := by
-          simpa [exchInScope, sub_method] using hs
-        obtain ⟨g, hg, hp⟩ := inScope_parse th t hsc
+        obtain ⟨g', hp, hg⟩ := parse_spec th t
+        have hres : subResOk (.sub s g') s (grantedTimeout th t) = true := by
+          simp only [subResOk, beq_self_eq_true, Bool.true_and]
+          cases hgt : grantedTimeout th t with
+          | none => rfl
+          | some g => simp [hg g hgt]
         rcases hp with ⟨hk, rfl⟩ | hk
-        · simp [foldExch, lastGrant, sub_method, sub_sid, sub_svc, subscribeFinish, hk, hg]
-        · simp [foldExch, lastGrant, sub_method, sub_sid, sub_svc, subscribeFinish, hk, hg]
+        · simpa [foldExch, lastGrant, sub_method, sub_sid, sub_svc, subscribeFinish, guards_pinned.1, hk] using hres
+        · simpa [foldExch, lastGrant, sub_method, sub_sid, sub_svc, subscribeFinish, guards_pinned.1, hk] using hres
     · cases sid <;> simp [foldExch, lastGrant, sub_method, sub_sid, subscribeFinish, excOf, h200]
 
 theorem doSubscribe_ok (rt : Routing) (svc : Nat) (t : Int) (rs : List Reaction)
@@ -167,17 +200,13 @@ theorem doSubscribe_ok (rt : Routing) (svc : Nat) (t : Int) (rs : List Reaction)
   · simp [sub_valid cfg svc t ht]
   · simp [fallbackAdjacent, sub_isRenewal]
   · intro _ _; simp [targetOk, sub_svc, sub_isInitial]
-  · intro hs
-    simp only [List.all_cons, List.all_nil, Bool.and_true] at hs
-    simpa using (sub_exch_spec cfg rt svc t r hs).1
-  · intro hs _ _
-    simp only [List.all_cons, List.all_nil, Bool.and_true] at hs
-    have h2 := (sub_exch_spec cfg rt svc t r hs).2
+  · simpa using (sub_exch_spec cfg rt svc t r).1
+  · intro _ _
+    have h2 := (sub_exch_spec cfg rt svc t r).2
     simp only [resultOk]
     split at h2
     · rename_i sid th hl
-      obtain ⟨g, hg, hr⟩ := h2
-      simp [hl, hg, hr]
+      simp [hl, h2]
     · rename_i hl; simp [hl, h2]
 
 end Upnp.C09
@@ -198,16 +227,18 @@ theorem nodup_renewFinish (rt : Routing) (svc : Nat) (sid : Str) (t : Int) (sid'
   all_goals first | exact h1 | exact nodup_keys_set _ _ _ h1
 
 /-- an accepted renewal: fold and result -/
-theorem ren_exch_spec (rt : Routing) (svc : Nat) (sid : Str) (t : Int) (sid' th : Option Str)
-    (hs : exchInScope ⟨renewRequest cfg svc sid t, .resp 200 sid' th⟩ = true) :
+theorem ren_exch_spec (rt : Routing) (svc : Nat) (sid : Str) (t : Int) (sid' th : Option Str) :
     foldExch rt ⟨renewRequest cfg svc sid t, .resp 200 sid' th⟩ = (renewFinish rt svc sid t sid' th).1
-    ∧ ∃ g, grantedTimeout th t = some g ∧ (renewFinish rt svc sid t sid' th).2 = .sub (renewedSid sid sid') g := by
-  have hsc : (grantedTimeout th 0).isSome = true := by
-    simpa [exchInScope, ren_method] using hs
-  obtain ⟨g, hg, hp⟩ := inScope_parse th t hsc
+    ∧ subResOk (renewFinish rt svc sid t sid' th).2 (renewedSid sid sid') (grantedTimeout th t) = true := by
+  obtain ⟨g', hp, hg⟩ := parse_spec th t
+  have hres : subResOk (.sub (renewedSid sid sid') g') (renewedSid sid sid') (grantedTimeout th t) = true := by
+    simp only [subResOk, beq_self_eq_true, Bool.true_and]
+    cases hgt : grantedTimeout th t with
+    | none => rfl
+    | some g => simp [hg g hgt]
   rcases hp with ⟨hk, rfl⟩ | hk
-  · simp [foldExch, ren_method, ren_sid, ren_svc, renewFinish, hk, hg]
-  · simp [foldExch, ren_method, ren_sid, ren_svc, renewFinish, hk, hg]
+  · simpa [foldExch, ren_method, ren_sid, ren_svc, renewFinish, guards_pinned.2, hk] using hres
+  · simpa [foldExch, ren_method, ren_sid, ren_svc, renewFinish, guards_pinned.2, hk] using hres
 
 theorem doResubscribe_ok (rt : Routing) (tg : Target) (t : Int) (rs : List Reaction)
     (hn : (keys rt).Nodup) (ht : 0 ≤ t) :
@@ -216,8 +247,8 @@ theorem doResubscribe_ok (rt : Routing) (tg : Target) (t : Int) (rs : List React
   cases hr : resolve rt tg with
   | none =>
     simp only
-    exact ⟨hn, rfl, rfl, fun _ _ => by simp [targetOk], fun _ => rfl,
-      fun _ _ _ => by simp [resultOk, lastGrant, excOf]⟩
+    exact ⟨hn, rfl, rfl, fun _ _ => by simp [targetOk], rfl,
+      fun _ _ => by simp [resultOk, lastGrant, excOf]⟩
   | some p =>
     obtain ⟨sid, svc⟩ := p
     have htg := resolve_target hr
@@ -235,14 +266,14 @@ theorem doResubscribe_ok (rt : Routing) (tg : Target) (t : Int) (rs : List React
       simp only
       refine ⟨nodup_keys_erase _ _ hn, by simp [ren_valid cfg svc t sid ht], ?_, fun _ _ => htarget _ _ _ _ _, ?_, ?_⟩
       · simp [fallbackAdjacent, ren_isRenewal]
-      · intro _; simp [foldExch, ren_method, ren_sid]
-      · intro _ _ _; simp [resultOk, lastGrant, ren_method, excOf]
+      · simp [foldExch, ren_method, ren_sid]
+      · intro _ _; simp [resultOk, lastGrant, ren_method, excOf]
     | connTimeout =>
       simp only
       refine ⟨nodup_keys_erase _ _ hn, by simp [ren_valid cfg svc t sid ht], ?_, fun _ _ => htarget _ _ _ _ _, ?_, ?_⟩
       · simp [fallbackAdjacent, ren_isRenewal]
-      · intro _; simp [foldExch, ren_method, ren_sid]
-      · intro _ _ _; simp [resultOk, lastGrant, ren_method, excOf]
+      · simp [foldExch, ren_method, ren_sid]
+      · intro _ _; simp [resultOk, lastGrant, ren_method, excOf]
     | resp status sid' th =>
       simp only
       by_cases h200 : status = 200
@@ -251,13 +282,10 @@ theorem doResubscribe_ok (rt : Routing) (tg : Target) (t : Int) (rs : List React
         refine ⟨nodup_renewFinish _ _ _ _ _ _ hn, by simp [ren_valid cfg svc t sid ht], ?_,
           fun _ _ => htarget _ _ _ _ _, ?_, ?_⟩
         · simp [fallbackAdjacent, ren_isRenewal]
-        · intro hs
-          simp only [List.all_cons, List.all_nil, Bool.and_true] at hs
-          simpa using (ren_exch_spec cfg rt svc sid t sid' th hs).1
-        · intro hs _ _
-          simp only [List.all_cons, List.all_nil, Bool.and_true] at hs
-          obtain ⟨g, hg, hres⟩ := (ren_exch_spec cfg rt svc sid t sid' th hs).2
-          simp [resultOk, lastGrant, ren_method, ren_sid, hg, hres]
+        · simpa using (ren_exch_spec cfg rt svc sid t sid' th).1
+        · intro _ _
+          have hres := (ren_exch_spec cfg rt svc sid t sid' th).2
+          simp [resultOk, lastGrant, ren_method, ren_sid, hres]
       · simp only [ne_eq, h200, not_false_eq_true, if_true]
         have hsub := doSubscribe_ok cfg (erase rt sid) svc t rs' (nodup_keys_erase _ _ hn) ht
         unfold doSubscribe at hsub ⊢
@@ -265,15 +293,12 @@ theorem doResubscribe_ok (rt : Routing) (tg : Target) (t : Int) (rs : List React
         refine ⟨hsub.nodup, ?_, ?_, fun _ _ => htarget _ _ _ _ _, ?_, ?_⟩
         · simp [ren_valid cfg svc t sid ht, sub_valid cfg svc t ht]
         · simp [fallbackAdjacent, ren_isRenewal, sub_isRenewal, sub_isInitial, sub_svc, ren_svc, h200]
-        · intro hs
-          simp only [List.all_cons, List.all_nil, Bool.and_true, Bool.and_eq_true] at hs
-          have := hsub.mirror (by simpa using hs.2)
+        · have := hsub.mirror
           simp only [List.foldl_cons, List.foldl_nil] at this ⊢
           rw [← this]
           simp [foldExch, ren_method, ren_sid, h200]
-        · intro hs r s
-          simp only [List.all_cons, List.all_nil, Bool.and_true, Bool.and_eq_true] at hs
-          have := hsub.result (by simpa using hs.2) r s
+        · intro r s
+          have := hsub.result r s
           simpa [resultOk, lastGrant] using this
 
 theorem doUnsubscribe_ok (rt : Routing) (tg : Target) (rs : List Reaction) (hn : (keys rt).Nodup) :
@@ -282,8 +307,8 @@ theorem doUnsubscribe_ok (rt : Routing) (tg : Target) (rs : List Reaction) (hn :
   cases hr : resolve rt tg with
   | none =>
     simp only
-    exact ⟨hn, rfl, rfl, fun _ _ => by simp [targetOk], fun _ => rfl,
-      fun _ _ _ => by simp [resultOk, excOf]⟩
+    exact ⟨hn, rfl, rfl, fun _ _ => by simp [targetOk], rfl,
+      fun _ _ => by simp [resultOk, excOf]⟩
   | some p =>
     obtain ⟨sid, svc⟩ := p
     have htg := resolve_target hr
@@ -294,8 +319,8 @@ theorem doUnsubscribe_ok (rt : Routing) (tg : Target) (rs : List Reaction) (hn :
       cases tg with
       | svc i => simp only at htg; subst htg; simp [targetOk, uns_svc, uns_method]
       | sid x => simp only at htg; subst htg; simp [targetOk, uns_sid, uns_method]
-    · intro _; simp [foldExch, uns_method, uns_sid, Ne.symm mSub_ne_mUnsub]
-    · intro _ _ _
+    · simp [foldExch, uns_method, uns_sid, Ne.symm mSub_ne_mUnsub]
+    · intro _ _
       cases r with
       | connErr => simp [resultOk, excOf]
       | connTimeout => simp [resultOk, excOf]
@@ -377,12 +402,12 @@ structure AllOk (rt : Routing) (o : Out) : Prop where
   valid : o.exch.all (fun e => validReq e.req) = true
   adjacent : fallbackAdjacent o.exch = true
   head : headNotInitial o.exch = true
-  mirror : o.exch.all exchInScope = true → o.exch.foldl foldExch rt = o.rt
+  mirror : o.exch.foldl foldExch rt = o.rt
 
 theorem resubAll_ok (sids : List Str) (rt : Routing) (rs : List Reaction) (first : Option Exc)
     (hn : (keys rt).Nodup) : AllOk rt (resubAll cfg sids rt rs first) := by
   induction sids generalizing rt rs first with
-  | nil => exact ⟨hn, rfl, rfl, rfl, fun _ => rfl⟩
+  | nil => exact ⟨hn, rfl, rfl, rfl, rfl⟩
   | cons s more ih =>
     simp only [resubAll]
     have h1 := doResubscribe_ok cfg rt (.sid s) _ rs hn defaultTimeout_nonneg
@@ -393,10 +418,8 @@ theorem resubAll_ok (sids : List Str) (rt : Routing) (rs : List Reaction) (first
     rw [ho] at hf
     refine ⟨h2.nodup, ?_, hf.1, hf.2, ?_⟩
     · simp only [List.all_append, Bool.and_eq_true]; exact ⟨h1.valid, h2.valid⟩
-    · intro hs
-      simp only [List.all_append, Bool.and_eq_true] at hs
-      simp only [List.foldl_append]
-      rw [h1.mirror hs.1, h2.mirror hs.2]
+    · simp only [List.foldl_append]
+      rw [h1.mirror, h2.mirror]
 
 theorem fallbackAdjacent_of_no_renewal (l : List Exch) (h : ∀ e ∈ l, isRenewal e.req = false) :
     fallbackAdjacent l = true := by
@@ -422,7 +445,7 @@ theorem unsubAll_ok (sids : List Str) (rt : Routing) (rs : List Reaction) (hn : 
     AllOk rt (unsubAll cfg sids rt rs)
     ∧ ∀ e ∈ (unsubAll cfg sids rt rs).exch, isRenewal e.req = false ∧ isInitial e.req = false := by
   induction sids generalizing rt rs with
-  | nil => exact ⟨⟨hn, rfl, rfl, rfl, fun _ => rfl⟩, fun e he => by cases he⟩
+  | nil => exact ⟨⟨hn, rfl, rfl, rfl, rfl⟩, fun e he => by cases he⟩
   | cons s more ih =>
     simp only [unsubAll]
     have h1 := doUnsubscribe_ok cfg rt (.sid s) rs hn
@@ -442,10 +465,8 @@ theorem unsubAll_ok (sids : List Str) (rt : Routing) (rs : List Reaction) (hn : 
       | cons e r =>
         have := (hall e (by rw [hx]; exact List.mem_cons_self)).2
         simp [headNotInitial, this]
-    · intro hs
-      simp only [List.all_append, Bool.and_eq_true] at hs
-      simp only [List.foldl_append]
-      rw [h1.mirror hs.1, h2.mirror hs.2]
+    · simp only [List.foldl_append]
+      rw [h1.mirror, h2.mirror]
 
 /-- well-formed call: caller-supplied timeouts are not negative -/
 def callWF : Call → Prop
@@ -465,11 +486,11 @@ theorem runCall_ok (rt : Routing) (c : Call) (rs : List Reaction) (hn : (keys rt
   | resubscribeAll =>
     have h := resubAll_ok cfg (keys rt) rt rs none hn
     exact ⟨h.nodup, h.valid, h.adjacent, fun _ _ => by simp [targetOk]; split <;> rfl, h.mirror,
-      fun _ _ _ => rfl⟩
+      fun _ _ => rfl⟩
   | unsubscribeAll =>
     have h := (unsubAll_ok cfg (keys rt) rt rs hn).1
     exact ⟨h.nodup, h.valid, h.adjacent, fun _ _ => by simp [targetOk]; split <;> rfl, h.mirror,
-      fun _ _ _ => rfl⟩
+      fun _ _ => rfl⟩
 
 end Upnp.C09
 
